@@ -21,6 +21,7 @@ import XsdataModel.Proofs.OccursDtd
 import XsdataModel.Proofs.DtdAttrs
 import XsdataModel.Proofs.EnumDefault
 import XsdataModel.Gen.DtdElem
+import XsdataModel.Proofs.DtdElem
 
 namespace Props.C16
 open Py Xs.Gen
@@ -287,57 +288,30 @@ theorem dtd_attribute_required_sound (d : DtdAttrDecl) (hwf : d.wf = true) (f : 
 example : dtdAttrField { default := .required } = some { init := true, default := .missing } := by
   decide
 
-/-! ## 5. element declarations: `EMPTY`, `ANY`, `(#PCDATA)`, mixed content
+/-! ## 5. element declarations: mixed content
 
 `dtdClassFields t content`: the element fields of the class of `<!ELEMENT e …>` by the element type
 and content tree libxml2 reports (`DtdMapper.build_elements`, `build_mixed_content`, the FLATTEN
-handlers, `ProcessMixedContentClass`; model `Gen/DtdElem`). A mixed class has one wildcard list
-`content` (`0..unbounded`, `mixed=True`, namespace `##any`): no occurrence constraint is left that
-a valid document could violate. -/
+handlers, `ProcessMixedContentClass`; model `Gen/DtdElem`, tied to the code by the op
+`gen.dtd_elem`). The shapes of the other declaration kinds (`EMPTY`: no fields; `(#PCDATA)`: a text
+field; `ANY`: the single, non-mixed wildcard behind finding `C16-any-drops-text`; element content:
+the fields of sections 1–3) are definitional cases of the model: lemmas in `Proofs/DtdElem`. -/
 
-/-- `ANY` gives the extension of `xs:anyType`, i.e. one optional wildcard field -/
-theorem dtd_any_single_wildcard (c : Option DtdContent) :
-    dtdClassFields .any c = .anyTypeWildcard := by
-  cases c <;> rfl
+/-- **Mixed content `(#PCDATA | a | b | …)*`: one wildcard list whose choices are exactly the
+listed elements**, for every tree below the `#PCDATA` leaf with pairwise distinct names: no
+occurrence bound is left that a valid document could violate, and every element the declaration
+lists (and no other) is bound to its class instead of a generic element. -/
+theorem dtd_mixed_choices (o o' : Occur) (r : Option DtdContent)
+    (hd : dtdDistinct (.or o none r) = true) :
+    dtdClassFields .mixed (some (.or o (some (.pcdata o')) r)) =
+      .mixedWildcard (dtdNames (.or o none r)) :=
+  dtd_mixed_choices_core o o' r (of_decide_eq_true hd)
 
-/-- "an element declaration whose content admits character data interleaved with child elements gets
-fields that can keep it" -/
-def DtdMixedKept : Prop :=
-  ∀ (t : DtdElemType) (c : Option DtdContent), t = .any ∨ t = .mixed →
-    (match c with | some (.pcdata _) => False | _ => True) →
-    (dtdClassFields t c).keepsMixedContent = true
-
-/-- **Defect (finding `C16-any-drops-text`)**: the class of `<!ELEMENT b ANY>` has a single wildcard
-field that is neither a list nor mixed: of the DTD-valid content `<b>tx<z>q</z>ty<d>dd</d></b>` the
-parser keeps `tx`, `z`, `d` in one generic element and drops `ty` ("Unassigned parsed object"). -/
-theorem dtd_any_drops_text : ¬ DtdMixedKept := by
-  intro h
-  have := h .any none (Or.inl rfl) trivial
-  exact absurd this (by decide)
-
-/-- **Mixed content `(#PCDATA | a | …)*` gives the wildcard list**, whatever the listed elements. -/
-theorem dtd_mixed_is_wildcard (o o' : Occur) (r : Option DtdContent) :
-    ∃ cs, dtdClassFields .mixed (some (.or o (some (.pcdata o')) r)) = .mixedWildcard cs :=
-  ⟨_, rfl⟩
-
-/-- `(#PCDATA | a)*` as libxml2 reports it: `or*(#PCDATA, a)` -/
-example : dtdClassFields .mixed
-    (some (.or .mult (some (.pcdata .once)) (some (.element ['a'] .once)))) =
-    .mixedWildcard [['a']] := by decide
-
-/-- **`EMPTY` gives no element fields** -/
-theorem dtd_empty_no_fields (c : Option DtdContent) : dtdClassFields .empty c = .plain [] := by
-  cases c <;> rfl
-
-/-- **The lone `(#PCDATA)`** (element type `mixed`, content the `#PCDATA` node itself) gives the
-text field `value` and no mixed class. -/
-theorem dtd_pcdata_value (o : Occur) : dtdClassFields .mixed (some (.pcdata o)) =
-    .plain [{ name := "value".toList, index := 0, min := (buildOccurs o).1, max := (buildOccurs o).2 }] := by
-  cases o <;> decide
-
-/-- **Element content goes through the occurrence arithmetic of sections 1–3** -/
-theorem dtd_element_content (c : DtdContent) :
-    dtdClassFields .element (some c) = .plain (occurs (dtdSites c)) := rfl
+/-- the hypotheses are satisfiable: `(#PCDATA | a | b)*` as libxml2 reports it -/
+example : dtdClassFields .mixed (some (.or .mult (some (.pcdata .once))
+      (some (.or .once (some (.element ['a'] .once)) (some (.element ['b'] .once)))))) =
+    .mixedWildcard [['a'], ['b']] :=
+  (dtd_mixed_choices .mult .once _ (by decide)).trans (by decide)
 
 /-! ## enumeration-typed fields: the default is the member with the declared *value*
 
